@@ -17,8 +17,29 @@ sources:   copy() / reverse_copy() (and the pickle round trip) promise an INDEPE
            (fix 86ec833, finding C20-shallow-copy): the source object of the last copy is kept
            and after every later call on the derived object its projection must still be the
            model state it had when it was copied (spec: src/sabs, SourceRefines; negative control
-           ShallowCopy = TRUE -> TLC reports SourceInverse violated).  Sources of derivations
-           documented as sharing (reverse(), filter_*, choose_*) are not observed.
+           ShallowCopy = TRUE -> TLC reports SourceInverse violated).
+sharing:   (hardening after seeds C20-H / C20-J) the object a SHARING derivation was taken from is watched too
+           (one watched object per history: class Objects; which one is the harness' choice, what it must show
+           is the specification's):
+           * reverse() is a VIEW on the same two dictionaries: whatever is inserted through the view (or through
+             the view of the view) the ORIGINAL must show the reverse (the same) collection, hence stay mutually
+             inverse -- for every size of the two indexes, in particular an EMPTY one (packages without tags,
+             a tag_filter rejecting every tag, DB()).  spec: src.kind/link/sd/sr, Mirror, ViewAbs, action Switch
+             ('back': the history continues on the original, the view is watched); TraceDebtags: TEvolve/TMirror;
+             negative control ViewReplacesEmptyIndex (`self.db = db or {}`) -> TLC reports SourceRefines violated.
+             The replay concretizes a reverse edge of the LTS taken on an intact view as GOING BACK to the
+             original (same reference transition, TLC's expected state) and compares the watched original with
+             the target of TLC's reverse edge after every call; the family "view" takes EVERY in-place transition
+             of the LTS through a view, with a derivation of the original taken before (kept aside) and taken
+             AGAIN after going back (it must be a derivation of the edited collection: memoised derivations).
+           * choose_* / filter_* (set objects shared, new dictionaries): the source must stay what it was until an
+             insert names an existing key of the tag index (it may reach a shared set: today the source then
+             loses the inverse -- d.filter_tags(f).insert('x', {'t'}); d.choose_packages([p]).reverse().insert(..)
+             -- the docstrings say "sharing": UNSPECIFIED, source released / src.unspec).  The filter_*_copy forms
+             promise copied tagsets: watched like copy().  choose_packages_copy is documented as copying but
+             stores self.db[pkg] itself (diagnostic sample, reported to the lead): treated as sharing.
+           In domain because the statement quantifies over ALL histories of inserts and derivations and names
+           reverse: the original of a view is a DB whose history contains the inserts made through its view.
 failures:  a read() whose input or tag_filter raises part-way, a qread() of a truncated pickle and
            other raising calls (insert(pkg, None), a raising filter, read(None)) are injected in the
            replay and in the recorder, on empty and non-empty collections, and the history CONTINUES
@@ -34,11 +55,22 @@ are mixed inside one history (the variant is drawn per call):
   DB.read(input_data, tag_filter): list of lines / iterator /        R T S  (via list|iter|gen|stringio|
     generator / io.StringIO / real text file / last line without       file|nonl; positional, keyword
     newline / tag_filter omitted, positional, keyword                   and omitted tag_filter)
+    text layer (io.TextIOWrapper) over: unbuffered real file,         R T S  (via file0|short|gzip|bz2|lzma|
+    BufferedReader on a raw stream with SHORT reads (not seekable),     spooled: notes/SIZE_STRESS.md part 4; the
+    GzipFile / BZ2File / LZMAFile (on BytesIO and on a real file),      cheap forms carry most cases, each of these
+    tempfile.SpooledTemporaryFile                                       a rotating share, ctx.extra file_object_kinds)
+    block alignment: blank-line padding puts a line end / its newline  R T    (st["align"]: offsets 2^k, k=9..17, -1/0/+1,
+    / the separator / a line start / a middle byte at 2^k (+-1)         bytes for byte-backed forms; aligned_cases)
   read_tag_database, read_tag_database_reversed,                     R T X  (via fn|fn_rev|fn_bw: a new DB
     read_tag_database_both_ways(+tag_filter pos/kw), reverse(db)        filled by the module readers;
     and readTagDatabase* aliases; parse_tags (under all of them)        X: output() text read back)
   DB.qwrite / DB.qread: io.BytesIO and real binary file              R T S  (qread into the same object,
                                                                         pickle copy into a new one)
+    qread(file) positional / keyword from: buffered and unbuffered     R T S  (BIN_KINDS file|file0|short|gzip|bz2|
+    real file, BufferedReader on a short-read raw stream, GzipFile /    lzma|spooled; also for truncated pickles)
+    BZ2File / LZMAFile (fileno() names the compressed file), Spooled
+    qwrite() appending to a file that already holds data, qread()      R T    (st["align"] of a qread: the end of the
+    from that position                                                    first pickle at 2^k, k=9..17, -1/0/+1)
   pickle.dumps/loads(db), copy.deepcopy(db)                          R T    (copy variants objpickle|deepcopy)
   copy.copy(db)                                                      out of domain: Python's shallow copy
                                                                         shares both dictionaries by definition
@@ -46,6 +78,11 @@ are mixed inside one history (the variant is drawn per call):
                                                                         keys without pairs are not written)
   DB.insert(pkg, tags) positional / keyword                          R T
   DB.copy, reverse_copy/reverseCopy, reverse                         R T S  (+ retained source, kept aside)
+  reverse() as a view: inserts through the view / the view of the    R T    (watched original, 'back', family "view":
+    view, original used again, derivations repeated around it           see "sharing")
+  restrictions taking FEW of MANY names out (totals around 64, 72,   S T    (threshold_case: blow-ups with a dropped
+    100, 128, 256, 512, 1000; dropped 1,2,3, 1/8 -1/0/+1, 1/4), a       SOLE carrier, every restrict variant; recorder:
+    dropped name being the sole carrier of a tag                         histories with 64..128 packages, few dropped)
   choose_packages(_copy), filter_packages(_copy),                    R T S  snake_case and camelCase alias,
     filter_packages_tags(_copy), filter_tags(_copy), facet_collection   positional and keyword argument
   has_package, has_tag, tags_of_package, packages_of_tag, card,      R T S  (card, discriminance have no alias)
@@ -74,10 +111,11 @@ from lts import LTS
 
 MANIFEST = dict(
     technique="TLA+ spec (Debtags: reference relation (P,T,R) + implementation layer db/rdb with every DB method transcribed) model-checked closed by TLC; complete reference LTS replayed into debtags.DB; recorded histories validated by TLC (TraceDebtags); named deviation for the open known finding",
-    text="TLC explores the closed state space of the two-layer model (3 packages of length 1/2/3 x 3 tags in 2 facets, reads with and without tag filter, inserts, reverse, copies, choose/filter derivations, facet collection; thorough: 4 packages) and checks in every reachable state that the two dictionaries are mutually inverse, refine the reference relation and that the query operators agree with it; with the named deviation InsertNewTagStoresChars switched on TLC reports Inverse violated (negative control). The source of every copy()/reverse_copy() is kept as a second observed object with explicit identities of shared set objects: it stays inverse and unchanged whatever is done to the copy (negative control ShallowCopy: TLC reports SourceInverse violated). Binding is two-way: every transition of the reference LTS plus random walks are replayed into the real DB class (all method variants: _copy forms, reverse/reverse_copy, copy/pickle) comparing both projected pair sets, key sets and all query methods with TLC's expected state, and the retained source of the last copy with the state it was copied in; histories recorded from the real class with up to 30 packages and arbitrary names are validated by TLC. Failing calls are part of the histories (read() whose input or tag_filter raises part-way, qread() of a truncated pickle, other raising calls): the exception must propagate and the object stay consistent (negative controls NonAtomicRead / NonAtomicQread). Derivations are also taken and kept aside while the same object is re-read (read / qread) and derived from again (negative control ReverseViewCached); every method is also called through its deprecated camelCase alias on several live objects (negative control AliasBoundToFirstObject). Names are stressed by characters (non-NFC twins, case hazards, non-BMP, format characters) in both legs and by size in the replay leg (stretched names up to 4 KiB; blow-ups of abstract behaviours to 10 000 packages / 1 000 tags a package). Divergences exactly explained by the known finding C20-insert-chars are counted as KNOWN-FINDING by TLC re-validating the history with the deviation-on operators; anything else is a violation.",
-    note="Small-scope: model constants 3 (4) packages x 3 tags; concretization of names is sampled. Domain: fresh package names for insert, each package on one line for read, facet_collection on facet::name tags, one current object plus the retained source of the last copy()/reverse_copy() (sources of derivations documented as sharing are not observed; the model watches a source for 2 further calls, the binding until the next copy). Unicode whitespace inside names is excluded (parse_tags treats it as format whitespace); size stress runs only on behaviours without insert/facet_collection (no known deviation there) and is judged against the blow-up of TLC's abstract expectation. Trusted: TLC, the projections of DB.db/DB.rdb, the concretizer. Corrupted control traces must be rejected in every run.",
+    text="TLC explores the closed state space of the two-layer model (3 packages of length 1/2/3 x 3 tags in 2 facets, reads with and without tag filter, inserts, reverse, copies, choose/filter derivations, facet collection; thorough: 4 packages) and checks in every reachable state that the two dictionaries are mutually inverse, refine the reference relation and that the query operators agree with it; with the named deviation InsertNewTagStoresChars switched on TLC reports Inverse violated (negative control). The source of every copy()/reverse_copy() is kept as a second observed object with explicit identities of shared set objects: it stays inverse and unchanged whatever is done to the copy (negative control ShallowCopy: TLC reports SourceInverse violated). Binding is two-way: every transition of the reference LTS plus random walks are replayed into the real DB class (all method variants: _copy forms, reverse/reverse_copy, copy/pickle) comparing both projected pair sets, key sets and all query methods with TLC's expected state, and the retained source of the last copy with the state it was copied in; histories recorded from the real class with up to 30 packages and arbitrary names are validated by TLC. Failing calls are part of the histories (read() whose input or tag_filter raises part-way, qread() of a truncated pickle, other raising calls): the exception must propagate and the object stay consistent (negative controls NonAtomicRead / NonAtomicQread). Derivations are also taken and kept aside while the same object is re-read (read / qread) and derived from again (negative control ReverseViewCached); every method is also called through its deprecated camelCase alias on several live objects (negative control AliasBoundToFirstObject). reverse() is a view: the original of a view is watched while inserts go through the view (and the view while the original is used again), it must show the reverse collection for every size of the indexes including empty ones (negative control ViewReplacesEmptyIndex); every in-place transition of the LTS is taken through a view with a derivation of the original taken before and again afterwards; restrictions that take few of many names out (totals around 64..1000, a dropped sole carrier of a tag) are replayed as blow-ups of TLC's abstract cases; inputs go through every kind of file object (short-read streams, decompressing wrappers, unbuffered and spooled files) with line ends aligned at 2^k offsets. Names are stressed by characters (non-NFC twins, case hazards, non-BMP, format characters) in both legs and by size in the replay leg (stretched names up to 4 KiB; blow-ups of abstract behaviours to 10 000 packages / 1 000 tags a package). Divergences exactly explained by the known finding C20-insert-chars are counted as KNOWN-FINDING by TLC re-validating the history with the deviation-on operators; anything else is a violation.",
+    note="Small-scope: model constants 3 (4) packages x 3 tags; concretization of names is sampled. Domain: fresh package names for insert, each package on one line for read, facet_collection on facet::name tags, one current object plus ONE watched object: the source of the last copy()/reverse_copy(), the original of a reverse() view (must follow the view) or the source of a set-sharing restriction (unchanged until an insert may reach a shared set; what it shows afterwards is unspecified: the docstrings say 'sharing'); the model watches a source for 2 further calls, the binding until the next retained derivation. Unicode whitespace inside names is excluded (parse_tags treats it as format whitespace); size stress runs only on behaviours without insert/facet_collection (no known deviation there) and is judged against the blow-up of TLC's abstract expectation. Trusted: TLC, the projections of DB.db/DB.rdb, the concretizer. Corrupted control traces must be rejected in every run.",
     design="5 (C20)")
 
+ALIGN_P = [0.005]         # share of the replayed read() calls that get an alignment case (the recorder: 0.15)
 KNOWN = "C20-insert-chars"
 KNOWN_Q = "C20-qread-nonatomic"     # fixed by 65b1608: nothing is suppressed unless it is re-opened
 JUNK = ("_zz", "_")        # names outside every alphabet used by the concretizer
@@ -181,9 +219,79 @@ def quiet_deprecations():
 WORKDIR = [None]          # scratch directory of the run (real files are created there)
 
 
-def _binary(real):
+class _ShortRaw(io.RawIOBase):
+    """a raw stream that returns SHORT reads (1..7 bytes per call)"""
+
+    def __init__(self, data):
+        io.RawIOBase.__init__(self)
+        self._d, self._p, self._n = data, 0, 0
+
+    def readable(self):
+        return True
+
+    def readinto(self, b):
+        self._n += 1
+        k = min(len(b), 1 + self._n % 7, len(self._d) - self._p)
+        b[:k] = self._d[self._p:self._p + k]
+        self._p += k
+        return k
+
+
+# kinds of BINARY file objects qread() is given (notes/SIZE_STRESS.md part 4); "" = io.BytesIO
+BIN_KINDS = ("", "file", "file0", "short", "gzip", "bz2", "lzma", "spooled")
+# kinds of TEXT inputs read() is given beside list / iterator / generator
+TEXT_FILE_KINDS = ("stringio", "file", "short", "gzip", "bz2", "lzma", "spooled", "file0")
+BYTE_BACKED = ("file", "short", "gzip", "bz2", "lzma", "spooled", "file0")
+
+
+def _bin_reader(kind, data):
+    """a binary file object of the given kind holding `data`, positioned at the start"""
     import tempfile
-    return tempfile.TemporaryFile("w+b", dir=WORKDIR[0]) if real else io.BytesIO()
+    if kind in ("file", "file0"):
+        f = tempfile.NamedTemporaryFile("w+b", dir=WORKDIR[0])
+        f.write(data)
+        f.flush()
+        if kind == "file":
+            f.seek(0)
+            return f
+        g = open(f.name, "rb", buffering=0)         # unbuffered: io.FileIO
+        f.close()                                   # (unlinked; g keeps the file)
+        return g
+    if kind == "short":
+        return io.BufferedReader(_ShortRaw(data), buffer_size=rnd_bufsize(len(data)))
+    if kind in ("gzip", "bz2", "lzma"):
+        # decompressing wrappers: seekable, but fileno() (if any) names the COMPRESSED stream -- half of them
+        # sit on a real file, the others on io.BytesIO
+        import bz2
+        import gzip
+        import lzma
+        comp = gzip.compress(data, 1) if kind == "gzip" else bz2.compress(data, 1) if kind == "bz2" else lzma.compress(data, preset=0)
+        under = _bin_reader("file", comp) if len(data) % 2 else io.BytesIO(comp)
+        return gzip.GzipFile(fileobj=under) if kind == "gzip" else bz2.BZ2File(under) if kind == "bz2" else lzma.LZMAFile(under)
+    if kind == "spooled":
+        f = tempfile.SpooledTemporaryFile(max_size=4096, dir=WORKDIR[0])    # rolls over to a real file beyond 4 KiB
+        f.write(data)
+        f.seek(0)
+        return f
+    return io.BytesIO(data)
+
+
+def rnd_bufsize(n):
+    return (16, 512, 4096, 8192)[n % 4]
+
+
+def _qwritten(db):
+    buf = io.BytesIO()
+    db.qwrite(buf)
+    return buf.getvalue()
+
+
+def padded(text, align):
+    """the lines with the blank-line padding of an alignment case put in (blank lines are no records)"""
+    if not align:
+        return text
+    a = align["after"]
+    return text[:a] + ["\n"] * align["n"] + text[a:]
 
 
 class _text_input(object):
@@ -205,6 +313,14 @@ class _text_input(object):
             self.f.write("".join(self.text))
             self.f.seek(0)
             return self.f
+        if self.via in ("short", "gzip", "bz2", "lzma", "file0"):     # text layer over the binary kinds
+            self.f = io.TextIOWrapper(_bin_reader(self.via, "".join(self.text).encode("utf-8")), encoding="utf-8", newline="\n")
+            return self.f
+        if self.via == "spooled":
+            self.f = tempfile.SpooledTemporaryFile(max_size=4096, mode="w+", dir=WORKDIR[0], encoding="utf-8", newline="\n")
+            self.f.write("".join(self.text))
+            self.f.seek(0)
+            return self.f
         return iter(self.text)
 
     def __exit__(self, *exc):
@@ -221,18 +337,42 @@ def do_call(cur, st):
     try:
         kw = st.get("kw", False)                      # keyword instead of positional arguments
         via = st.get("via", "")
+        if op in ("read", "qread", "pickle", "qread_fail"):
+            key = "%s:%s" % ("read" if op == "read" else "qread", via or "bytesio")
+            STATS["kinds"][key] = STATS["kinds"].get(key, 0) + 1
+            if st.get("align") and op == "read":
+                STATS["aligned"].append(dict(st["align"], via=via or "iter"))
         if op == "qread":                               # a successful qread() INTO the current object
             other = debtags.DB()
             other.read(iter(st["text"]))
-            with _binary(via == "file") as f:
-                other.qwrite(f)
-                f.seek(0)
-                cur.qread(f)
+            if via in ("", "file") and not st.get("kw"):          # written and read through the same file object
+                import tempfile
+                with (tempfile.TemporaryFile("w+b", dir=WORKDIR[0]) if via == "file" else io.BytesIO()) as f:
+                    lead = 0
+                    if st.get("align"):
+                        # the file already holds `lead` bytes when qwrite() appends the two pickles: the END of the
+                        # first pickle (the member boundary) lies at, one before or one after an offset 2^k
+                        k, delta = st["align"]["k"], st["align"]["delta"]
+                        first = len(pickle.dumps(other.db))
+                        while (1 << k) + delta < first:
+                            k += 1
+                        lead = (1 << k) + delta - first
+                        f.write(b"\0" * lead)
+                        STATS["aligned"].append({"k": k, "delta": delta, "where": "end of the first pickle", "via": "qread:" + (via or "bytesio"), "n": lead})
+                    other.qwrite(f)
+                    f.seek(lead)
+                    cur.qread(f)
+            else:
+                with _bin_reader(via, _qwritten(other)) as f:
+                    if kw:
+                        cur.qread(file=f)
+                    else:
+                        cur.qread(f)
             return cur, ""
         if op == "read":
             drop = set(st["drop"])
             filt = (lambda t: t not in drop) if st["usefilter"] else None
-            text = list(st["text"])
+            text = padded(list(st["text"]), st.get("align"))
             if via == "nonl" and text and text[-1].endswith("\n") and text[-1].strip():
                 text[-1] = text[-1][:-1]                # the last line of a file need not end in a newline
             if via in ("fn", "fn_rev", "fn_bw"):        # the module-level readers fill a NEW object
@@ -272,9 +412,7 @@ def do_call(cur, st):
                 import copy
                 return copy.deepcopy(cur), ""
             new = debtags.DB()
-            with _binary(via == "file") as f:
-                cur.qwrite(f)
-                f.seek(0)
+            with _bin_reader(via, _qwritten(cur)) as f:
                 new.qread(f)
             return new, ""
         if op in ("dumpread", "dumprevread"):           # the printed text database read into a new DB
@@ -325,7 +463,8 @@ def do_call(cur, st):
                 cut = int(st["cutfrac"] * first)
             else:
                 cut = first + int(st["cutfrac"] * (len(data) - first))
-            cur.qread(io.BytesIO(data[:cut]))
+            with _bin_reader(st.get("via", ""), data[:cut]) as f:
+                cur.qread(f)
             return cur, ""
         if op == "probe":                             # calls expected to raise; the result is dropped
             w = st["what"]
@@ -429,13 +568,49 @@ def enc_dict(d):
 
 COPY_OPS = ("copy", "reverse_copy", "pickle", "dumpread", "dumprevread")
 FAIL_OPS = ("read_fail", "qread_fail", "probe")
+# derivations whose SOURCE may be retained as the watched object (TraceDebtags: CopyFormOps / ShareOps / reverse)
+COPYFORM_OPS = ("filter_p_copy", "filter_pt_copy", "filter_t_copy")       # "with a copy of the tagsets"
+SHARE_OPS = ("choose", "choose_copy", "filter_p", "filter_pt", "filter_t")  # share set objects with their source
+RETAINABLE = COPYFORM_OPS + SHARE_OPS + ("reverse",)
 
 
-def event_of(st, exc, db, rdb, answers=None, source=None, current=None):
+class Objects:
+    """the current object of a history and the WATCHED one: the source of the last copy (always retained),
+    or of a sharing derivation when the call descriptor says retain (reverse(): the original of the view;
+    choose_*/filter_*: the collection the sets are shared with).  op 'back' continues the history on the
+    watched object and watches the former current one.  Which object is watched is the harness' choice;
+    what it must show is decided by the specification."""
+
+    def __init__(self):
+        from debian import debtags
+        self.cur = debtags.DB()
+        self.src = None
+        self.skind = ""        # how the watched object was retained: copy | view | part
+
+    def call(self, st):
+        """returns (exception name or '', sact) -- sact: 'retain' (the object the call was made on is
+        now watched) / 'same'; None when the step is skipped (back without a watched object)"""
+        if st["op"] == "back":
+            if self.src is None:
+                return None
+            self.cur, self.src = self.src, self.cur
+            return "", "same"
+        before = self.cur
+        self.cur, exc = do_call(self.cur, st)
+        if exc:
+            return exc, "same"
+        if st["op"] in COPY_OPS or (st["op"] in RETAINABLE and st.get("retain")):
+            self.src = before
+            self.skind = "copy" if st["op"] in COPY_OPS + COPYFORM_OPS else ("view" if st["op"] == "reverse" else "part")
+            return "", "retain"
+        return "", "same"
+
+
+def event_of(st, exc, db, rdb, answers=None, source=None, current=None, sact="same", skind=""):
     """trace event for TraceDebtags from a call descriptor and what was observed;
-    source = (db, rdb) projection of the retained source of the last copy, or None"""
+    source = (db, rdb) projection of the watched object (Objects), or None"""
     e = {"op": st["op"], "exc": exc, "db": enc_dict(db), "rdb": enc_dict(rdb), "slive": source is not None,
-         "keep": current is not None}
+         "sact": sact, "skind": skind, "keep": current is not None}
     if current is not None:          # a kept derivation: db/rdb show the DERIVED object, cdb/crdb the current one
         e["cdb"], e["crdb"] = enc_dict(current[0]), enc_dict(current[1])
     if source is not None:
@@ -457,7 +632,7 @@ def event_of(st, exc, db, rdb, answers=None, source=None, current=None):
     elif op == "qread_fail":
         e["lines"] = [{"pkgs": enc_set(p), "tags": enc_set(t)} for p, t in st["lines"]]
         e["k"] = st["k"]
-    elif op == "probe":
+    elif op in ("probe", "back"):
         pass
     elif "s" in st and op not in ("q", "qs"):
         e["s"] = enc_set(st["s"])
@@ -477,16 +652,16 @@ def event_of(st, exc, db, rdb, answers=None, source=None, current=None):
 def execute(plan):
     """run a plan (list of call descriptors) on a fresh DB and record one event per call.
     returns (events, problem): problem is a message when the state could not be projected"""
-    from debian import debtags
-    cur = debtags.DB()
-    srcobj = None          # the object the last copy()/reverse_copy()/pickle was taken from
+    objs = Objects()       # the current object and the watched one
     events = []
     for st in plan:
         current = None
         shown = None
+        sact = "same"
+        cur, srcobj = objs.cur, objs.src
         if st["op"] == "q":
             answers, exc = ask(cur, st["names"], st.get("alias", False), st.get("kw", False))
-        elif st["op"] == "qs":                 # the query methods of the retained source of the last copy
+        elif st["op"] == "qs":                 # the query methods of the watched object
             if srcobj is None:
                 continue
             answers, exc = ask(srcobj, st["names"], st.get("alias", False))
@@ -502,10 +677,11 @@ def execute(plan):
                 exc = exc or ("queries:" + qexc if qexc else "")
         else:
             answers = None
-            before = cur
-            cur, exc = do_call(cur, st)
-            if st["op"] in COPY_OPS and not exc:
-                srcobj = before
+            r = objs.call(st)
+            if r is None:
+                continue                       # back without a watched object
+            exc, sact = r
+            cur, srcobj = objs.cur, objs.src
         db, rdb, bad = proj(cur)
         if bad:
             return events, "after %s: %s" % (describe(st), bad)
@@ -518,17 +694,23 @@ def execute(plan):
         if srcobj is not None:
             sdb, srdb, bad = proj(srcobj)
             if bad:
-                return events, "after %s: source of the last copy: %s" % (describe(st), bad)
+                return events, "after %s: the watched %s: %s" % (describe(st), SKIND_TEXT.get(objs.skind, "source"), bad)
             source = (sdb, srdb)
         try:
-            events.append(event_of(st, exc, db, rdb, answers, source, current))
+            events.append(event_of(st, exc, db, rdb, answers, source, current, sact, objs.skind))
         except Exception as e:
             return events, "after %s: answers not encodable (%s: %s)" % (describe(st), type(e).__name__, e)
     return events, None
 
 
+SKIND_TEXT = {"copy": "source of the last copy", "view": "original of the reverse() view",
+              "part": "collection the restriction shares its sets with"}
+
+
 def describe(st):
     op = st["op"]
+    if op == "back":
+        return "[the history continues on the watched object: %s]" % st.get("why", "the original / the source")
     if op == "read":
         return "read(%s%s)%s" % (short("".join(st["text"])), ", tag_filter=not in %r" % (sorted(st["drop"]),) if st["usefilter"] else "",
                                  " [via %s%s]" % (st.get("via", "iter"), ", keywords" if st.get("kw") else "") if st.get("via") or st.get("kw") else "")
@@ -595,8 +777,35 @@ def read_text(rng, lines):
 
 # input forms of read(): list of lines, iterator, generator, text file objects, last line without newline;
 # "fn*" = the module-level readers / reverse() filling a new object
-READ_VIAS = ("iter", "list", "gen", "stringio", "file", "nonl", "fn_bw")
-INPLACE_VIAS = ("iter", "list", "gen", "stringio", "file", "nonl")
+# the cheap forms carry most cases, every other kind of file object a rotating share (quick-tier budget)
+READ_VIAS = ("iter", "list", "gen", "nonl", "fn_bw", "stringio") * 5 + TEXT_FILE_KINDS
+INPLACE_VIAS = ("iter", "list", "gen", "nonl", "stringio") * 5 + TEXT_FILE_KINDS
+QREAD_VIAS = ("",) * 30 + BIN_KINDS
+PICKLE_VIAS = QREAD_VIAS + ("objpickle", "deepcopy") * 5
+ALIGN_K = (9, 9, 9, 9, 10, 10, 10, 10, 11, 11, 11, 12, 12, 12, 13, 13, 13, 14, 14, 15, 16, 17)
+STATS = {"kinds": {}, "aligned": []}      # evidence: file-object kinds used, alignment cases built
+
+
+def make_align(rng, text, via):
+    """blank-line padding (blank lines are no records) that makes a line end, the newline itself, the
+    package/tags separator, the start of a line or a byte in the middle of a line fall exactly at, one before
+    or one after an offset 2^k (k = 9..17), measured in bytes for byte-backed inputs, else in characters"""
+    if not text:
+        return None
+    size = (lambda t: len(t.encode("utf-8"))) if via in BYTE_BACKED else len
+    j = len(text) - 1 if rng.random() < 0.4 else rng.randrange(len(text))
+    line = text[j]
+    where = rng.choice(("end", "end", "newline", "separator", "middle", "start"))
+    inside = {"end": line, "newline": line[:-1] if line.endswith("\n") else line,
+              "separator": line[:line.index(":")] if ":" in line else line, "middle": line[:len(line) // 2], "start": ""}[where]
+    anchor = sum(size(t) for t in text[:j]) + size(inside)
+    k, delta = rng.choice(ALIGN_K), rng.choice((-1, 0, 0, 1))
+    while (1 << k) + delta < anchor:
+        k += 1
+    if k > 17:
+        return None
+    return {"after": rng.randint(0, min(j, 1)), "n": (1 << k) + delta - anchor, "k": k, "delta": delta, "where": where,
+            "line": "last" if j == len(text) - 1 else j}
 
 
 def concretize_step(e, conc, rng, junk):
@@ -608,11 +817,17 @@ def concretize_step(e, conc, rng, junk):
         drop = conc.names(e["s"])
         text, glines = read_text(rng, lines)
         if not drop and rng.random() < 0.3:             # the same collection through qwrite/qread
-            return {"op": "qread", "text": text, "lines": glines, "via": rng.choice(["", "", "file"])}
+            st = {"op": "qread", "text": text, "lines": glines, "via": rng.choice(QREAD_VIAS), "kw": rng.random() < 0.3}
+            if rng.random() < 4 * ALIGN_P[0]:
+                st.update(via=rng.choice(("", "file")), kw=False, align={"k": rng.choice(ALIGN_K), "delta": rng.choice((-1, 0, 0, 1))})
+            return st
         usefilter = bool(drop) or rng.random() < 0.5
-        vias = list(READ_VIAS) + ([] if usefilter else ["fn", "fn_rev"])
-        return {"op": "read", "text": text, "lines": glines, "drop": sorted(drop), "usefilter": usefilter,
-                "via": rng.choice(vias), "kw": rng.random() < 0.3, "alias": rng.random() < 0.5}
+        vias = list(READ_VIAS) + ([] if usefilter else ["fn", "fn_rev"] * 4)
+        st = {"op": "read", "text": text, "lines": glines, "drop": sorted(drop), "usefilter": usefilter,
+              "via": rng.choice(vias), "kw": rng.random() < 0.3, "alias": rng.random() < 0.5}
+        if rng.random() < ALIGN_P[0]:
+            st["align"] = make_align(rng, text, st["via"])
+        return st
     if op == "insert":
         return {"op": "insert", "a": conc.name(e["a"]), "s": sorted(conc.names(e["s"])), "kw": rng.random() < 0.3}
     if op in ("dumpread", "dumprevread"):
@@ -623,7 +838,7 @@ def concretize_step(e, conc, rng, junk):
         text = ["%s: %s\n" % (", ".join(p), ", ".join(t)) if t else "%s\n" % ", ".join(p) for p, t in glines]
         k = e["k"]
         if op == "qread_fails":
-            return {"op": "qread_fail", "text": text, "lines": glines, "k": k, "cutfrac": rng.random()}
+            return {"op": "qread_fail", "text": text, "lines": glines, "k": k, "cutfrac": rng.random(), "via": rng.choice(QREAD_VIAS)}
         st = {"op": "read_fail", "text": text, "lines": glines, "k": k, "m": k, "mode": "source", "fcall": 0, "want": "OSError"}
         if k < len(glines) and glines[k][1] and rng.random() < 0.5:
             st.update(mode="filter", fcall=1 + sum(len(t) for _, t in glines[:k]), want="ValueError")
@@ -634,17 +849,17 @@ def concretize_step(e, conc, rng, junk):
         return {"op": rng.choice(["reverse", "reverse_copy"]), "alias": al}
     if op == "copy":
         v = rng.choice(["copy", "copy", "pickle", "pickle"])
-        return {"op": v, "via": rng.choice(["", "file", "objpickle", "deepcopy"]) if v == "pickle" else ""}
+        return {"op": v, "via": rng.choice(PICKLE_VIAS) if v == "pickle" else ""}
     if op == "facet":
         return {"op": "facet", "alias": al}
     S = sorted(conc.names(e["s"]))
     if op == "filter_t":
         extra = [j for j in junk if rng.random() < 0.3]
-        return {"op": rng.choice(["filter_t", "filter_t_copy"]), "s": sorted(set(S + extra)), "alias": al, "kw": kwf}
+        return {"op": e.get("variant") or rng.choice(["filter_t", "filter_t_copy"]), "s": sorted(set(S + extra)), "alias": al, "kw": kwf}
     if op == "restrict_p":
         present = conc.names(e["from"]["P"])
         absent = [j for j in junk if j not in present and rng.random() < 0.3]
-        v = rng.choice(["choose", "choose", "choose_copy", "filter_p", "filter_p_copy", "filter_pt", "filter_pt_copy"])
+        v = e.get("variant") or rng.choice(["choose", "choose", "choose_copy", "filter_p", "filter_p_copy", "filter_pt", "filter_pt_copy"])
         if v == "choose_copy":
             return {"op": v, "s": S, "alias": al, "kw": kwf}
         s = S + absent
@@ -726,6 +941,37 @@ def _compare_queries(cur, table, conc, junk, names, alias, kw=False):
 SHARING_OPS = ("reverse", "choose", "choose_copy", "filter_p", "filter_pt", "filter_t")   # documented / coded as sharing
 
 
+def view_link(link, st):
+    """the dictionary link between the current object and the watched ORIGINAL of a reverse() view after
+    the call st: 'rev' (the current object is the reverse view), 'same' (the view of the view), None (no
+    dictionary is shared any more: read()/qread() bind new ones, every other derivation builds new ones)"""
+    op = st["op"]
+    if st.get("keep") or op in ("insert", "read_fail", "qread_fail", "probe", "back"):
+        return link
+    if op == "reverse":
+        return {"rev": "same", "same": "rev"}.get(link, "rev")       # nothing watched: the original is retained
+    return None
+
+
+def plan_views(plan, rng, force_last=False):
+    """a reverse edge of the reference taken while the current object is the reverse() view of a watched
+    original may be concretized as GOING BACK to the original (op 'back': same reference transition, the
+    expected state is TLC's); marks the reverse() calls whose original gets watched (retain)"""
+    link = None
+    last = max([i for i, st in enumerate(plan) if st["op"] == "reverse" and not st.get("keep")] or [-1])
+    for i, st in enumerate(plan):
+        if st["op"] == "reverse" and not st.get("keep"):
+            if link == "rev" and ((force_last and i == last) or rng.random() < 0.4):
+                st["op"], st["why"] = "back", SKIND_TEXT["view"]
+                continue
+            if link is None:
+                st["retain"] = True
+        elif st["op"] in SHARE_OPS + COPYFORM_OPS and not st.get("keep"):
+            st.setdefault("retain", True)
+        link = view_link(link, st)
+    return plan
+
+
 def replay_path(plan, exp, conc, rng, junk, deep):
     """step the real object through `plan`, comparing after each call with what TLC expects:
     exp[i] = {"to": state, "table": query table of it, "from": state, "ftable": its table[, "allowed"]}.
@@ -737,6 +983,8 @@ def replay_path(plan, exp, conc, rng, junk, deep):
     from debian import debtags
     cur = debtags.DB()
     srcobj, srcexp, srcstep = None, None, 0
+    vsrc, vlink, vstep = None, None, 0            # the original of a reverse() view (dictionaries shared)
+    psrc, pexp, pstep = None, None, 0             # the collection a choose_*/filter_* result shares its sets with
     parked = []
     n = len(plan)
     for i, st in enumerate(plan):
@@ -757,7 +1005,12 @@ def replay_path(plan, exp, conc, rng, junk, deep):
                 parked.append((derived, x, i + 1))
             continue
         before = cur
-        cur, exc = do_call(cur, st)
+        if st["op"] == "back":                 # the reference transition of reverse(): back on the original of the view
+            if vsrc is None or vlink != "rev":
+                raise core.MachineryError("'back' planned without a watched original")
+            cur, vsrc, exc = vsrc, cur, ""
+        else:
+            cur, exc = do_call(cur, st)
         if st["op"] in ("read_fail", "qread_fail"):
             if (exc != st["want"]) if st["op"] == "read_fail" else (not exc):
                 return i, where + "expected the injected exception to propagate, got %r" % (exc or "no exception")
@@ -770,7 +1023,30 @@ def replay_path(plan, exp, conc, rng, junk, deep):
             return i, where + "raised %s" % exc
         if st["op"] in COPY_OPS:
             srcobj, srcexp, srcstep = before, x, i + 1
+        # sharing derivations: the original of a view follows the view; the source of a set-sharing
+        # restriction stays what it was until an insert may reach a shared set (then: unspecified)
+        if st["op"] == "reverse" and vlink is None:
+            vsrc, vstep = before, i + 1
+        vlink = view_link(vlink, st)
+        if vlink is None:
+            vsrc = None
+        if psrc is not None and st["op"] == "insert" and set(st["s"]) & conc.names(x["from"]["T"]):
+            psrc = None
+        if st["op"] in SHARE_OPS and psrc is None and x.get("rto") is not None:
+            psrc, pexp, pstep = before, x, i + 1
         m = compare_state(cur, x["to"], conc)
+        touched = st["op"] in ("insert", "back", "reverse", "read_fail", "qread_fail", "probe") or i == n - 1
+        if m is None and vsrc is not None and x.get("rto") is not None and touched:
+            who = "the ORIGINAL of the reverse() view taken in step %d does not show what was done through %s: " % (
+                vstep, "the view" if vlink == "rev" else "the view of the view")
+            m = compare_state(vsrc, x["rto"] if vlink == "rev" else x["to"], conc, who)
+            if m is None and (i == n - 1 or (deep and rng.random() < 0.25)):
+                m = compare_queries(vsrc, x["rtable"] if vlink == "rev" else x["table"], conc, rng, junk, who)
+        if m is None and psrc is not None and (touched or i + 1 == pstep):
+            who = "the collection the %s result of step %d shares its sets with changed: " % (plan[pstep - 1]["op"], pstep)
+            m = compare_state(psrc, pexp["from"], conc, who)
+            if m is None and i == n - 1:
+                m = compare_queries(psrc, pexp["ftable"], conc, rng, junk, who)
         if m is None and srcobj is not None:
             who = "the SOURCE of the %s of step %d changed: " % (plan[srcstep - 1]["op"], srcstep)
             m = compare_state(srcobj, srcexp["from"], conc, who)
@@ -849,9 +1125,19 @@ def secondary_entry_points(cur, x, conc, rng):
     return None
 
 
-def expectations(path, tables):
-    return [dict({"to": e["to"], "table": tables[e["_t"]], "from": e["from"], "ftable": tables[e["_f"]]},
-                 **({"allowed": e["allowed"]} if "allowed" in e else {})) for e in path]
+def expectations(path, tables, rev_of=None):
+    """what TLC expects along a path; rto / rtable: the target of the reference's reverse transition out of
+    `to` (what the ORIGINAL of a reverse() view must show while the view shows `to`)"""
+    out = []
+    for e in path:
+        x = {"to": e["to"], "table": tables[e["_t"]], "from": e["from"], "ftable": tables[e["_f"]]}
+        if "allowed" in e:
+            x["allowed"] = e["allowed"]
+        if rev_of is not None:
+            r = rev_of[e["_t"]]
+            x["rto"], x["rtable"] = r["to"], tables[r["_t"]]
+        out.append(x)
+    return out
 
 
 def with_queries(plan, names, every=True):
@@ -965,6 +1251,50 @@ def big_path(g, rng, length):
     return path
 
 
+THRESH_N = (63, 64, 65, 71, 72, 73, 99, 100, 101, 127, 128, 129, 255, 256, 257, 511, 512, 513, 1000, 1024)
+
+
+RESTRICT_VARIANTS = ("choose", "choose_copy", "filter_p", "filter_p_copy", "filter_pt", "filter_pt_copy", "filter_t", "filter_t_copy")
+
+
+def threshold_case(g, by_op, rng, variant, total, kpick):
+    """a behaviour DB() -read-> s -restriction-> s' [-> more] with a blow-up in which the restriction (the
+    method `variant`) takes out only a FEW of MANY real names: the total lies around 64, 100, 128, 256 ...,
+    the dropped share below / at / above 1/8 (and 1, 2, 3 names), preferably with a dropped name that is
+    the SOLE carrier of a name of the other index (so a key must disappear from it).  The abstract case and
+    its expectation are TLC's.  returns (path, counts, description) or None"""
+    kind = "filter_t" if variant.startswith("filter_t") else "restrict_p"
+    starts = [e for e in g.out[g.init] if e["op"] == "read" and not e["s"] and len(e["to"]["P"]) >= 2 and len(e["to"]["T"]) >= 2]
+    rng.shuffle(starts)
+    for r in starts:
+        uni = [tuple(n) for n in (r["to"]["P"] if kind == "restrict_p" else r["to"]["T"])]
+        cands = [e for e in by_op[r["_t"]].get(kind, []) if 0 < len({tuple(n) for n in e["s"]} & set(uni)) < len(uni)]
+        if not cands:
+            continue
+        other = "T" if kind == "restrict_p" else "P"
+        sole = [e for e in cands if len(e["to"][other]) < len(e["from"][other])]
+        e = rng.choice(sole if sole and rng.random() < 0.85 else cands)
+        kept = [n for n in uni if n in {tuple(x) for x in e["s"]}]
+        dropped = [n for n in uni if n not in kept]
+        k = max(len(dropped), (1, 2, 3, total // 16, total // 10, total // 8 - 1, total // 8, total // 8 + 1, total // 4)[kpick % 9])
+        counts = {}
+        for i, n in enumerate(dropped):
+            counts[n] = k // len(dropped) + (1 if i < k % len(dropped) else 0)
+        rest = max(len(kept), total - k)
+        for i, n in enumerate(kept):
+            counts[n] = rest // len(kept) + (1 if i < rest % len(kept) else 0)
+        path = [r, dict(e, variant=variant)]
+        for _ in range(rng.randint(0, 2)):
+            outs = [x for x in g.out[path[-1]["_t"]] if x["op"] in BIG_OPS and x["op"] != "read"]
+            path.append(rng.choice(outs))
+        for x in path:
+            for n in x["to"]["P"] + x["to"]["T"] + x["from"]["P"] + x["from"]["T"] + [q for a in x.get("allowed", []) for q in a["P"] + a["T"]]:
+                counts.setdefault(tuple(n), rng.choice((1, 1, 2, 3)))
+        return path, [[list(n), c] for n, c in sorted(counts.items())], dict(
+            total=rest + k, dropped=k, restriction=variant, sole_carrier=e in sole, steps=[x["op"] for x in path])
+    return None
+
+
 def replay_big(path, tables, bc, rng):
     """like replay_path for a blown-up concretization; returns None or a message"""
     from debian import debtags
@@ -1037,8 +1367,15 @@ def corrupt(t, how):
         if how == "exc" and e["op"] in ("copy", "reverse", "reverse_copy", "filter_t", "filter_p") and not e["exc"]:
             e["exc"] = "KeyError"
             return {"events": evs[:i + 1]}
-        if how == "source-changed" and e["slive"] and e["op"] not in COPY_OPS and e["srdb"]:
+        if how == "source-changed" and e["slive"] and e.get("skind") == "copy" and e["op"] not in COPY_OPS + COPYFORM_OPS + ("back",) \
+                and e["srdb"]:
             e["srdb"][0][1] = e["srdb"][0][1] + [[0x7a, 0x7a]]
+            return {"events": evs[:i + 1]}
+        if how == "view-stale" and i and e["op"] == "insert" and not e["exc"] and e["slive"] and e["sact"] == "same" \
+                and evs[i - 1]["op"] == "reverse" and evs[i - 1].get("sact") == "retain" and not evs[i - 1].get("keep") \
+                and (e["db"], e["rdb"]) != (evs[i - 1]["db"], evs[i - 1]["rdb"]):
+            # the original of a reverse() view that did not follow an insert made through the view
+            e["sdb"], e["srdb"] = evs[i - 1]["sdb"], evs[i - 1]["srdb"]
             return {"events": evs[:i + 1]}
         if how == "fail-partial" and e["op"] in ("read_fail", "qread_fail") and e["db"] and e["rdb"]:
             e["db"] = []                 # new (empty) package index with the old tag index
@@ -1054,7 +1391,7 @@ def corrupt(t, how):
 
 def make_controls(traces):
     out = []
-    for how in ("drop-member", "card", "fake-dev", "exc", "extra-key", "source-changed", "fail-partial", "fail-swallowed"):
+    for how in ("drop-member", "card", "fake-dev", "exc", "extra-key", "source-changed", "view-stale", "fail-partial", "fail-swallowed"):
         for t in traces:
             c = corrupt(t, how)
             if c:
@@ -1100,18 +1437,30 @@ def rname(rng, lo, hi, alpha):
     return "".join(rng.choice(alpha) for _ in range(rng.randint(lo, hi)))
 
 
-def record_history(rng, nops, maxpk):
+def record_history(rng, nops, maxpk, many=0):
     """random history on the real class over alphabets far beyond the model constants.
-    returns a plan; it is built while executing because arguments depend on the current keys"""
-    from debian import debtags
+    returns a plan; it is built while executing because arguments depend on the current keys.
+    many > 0: a collection of `many` (>= 64) packages, some of them the sole carrier of a tag, and
+    restrictions that take only a few names out (counts around the thresholds of notes/SIZE_STRESS.md)"""
     u = rng.random()
-    stress = u < 0.25                 # character stress (SIZE_STRESS part 2): twins, case hazards, non-BMP ...
+    stress = u < 0.25 and not many    # character stress (SIZE_STRESS part 2): twins, case hazards, non-BMP ...
     alpha = ALPHA + (EXOTIC if u > 0.8 else "") + (STRESS_POOL * 3 if stress else "")
-    npk = rng.randint(2, maxpk)
+    npk = many or rng.randint(2, maxpk)
+    few = bool(many) or rng.random() < 0.25       # restrictions drop 1, 2, 3 or about 1/8 of the names
 
     def length():                     # heavy-tailed; TLC scans these names, so they stay below ~70 code points
         v = rng.random()
+        if many:
+            return rng.randint(2, 4)
         return rng.randint(2, 9) if v < 0.85 else rng.choice((15, 16, 17, 31, 32, 33, 63, 64, 65))
+
+    def most(names):
+        """all but a few of the names (few-dropped mode), else a random 3/4 of them"""
+        names = list(names)
+        if not few or len(names) < 2:
+            return [x for x in names if rng.random() < 0.75]
+        out = set(rng.sample(names, min(len(names) - 1, rng.choice((1, 1, 2, 3, max(1, len(names) // 8), len(names) // 8 + 1)))))
+        return [x for x in names if x not in out]
 
     pk_pool = set()
     if stress:                        # not NFC / NFKC / case stable, as DIFFERENT packages
@@ -1129,30 +1478,49 @@ def record_history(rng, nops, maxpk):
     tg_pool = sorted({"%s::%s" % (rng.choice(facets), rname(rng, 1, 5 if rng.random() < 0.9 else 33, talpha))
                       for _ in range(rng.randint(2, 12))})
     fresh = iter(pk_pool)
-    cur = debtags.DB()
+    objs = Objects()       # the current object and the watched one, like execute() will have them
+    memo = []              # (object, descriptor) of the derivations taken from it and kept aside
     plan = []
     flipped = False
     faceted = False
+    srcflags = (False, False)          # flipped / faceted of the watched object
     clean = [True]         # False once a call outside the domain (unspecified outcome) was made
 
     def step(st):
-        nonlocal cur
+        nonlocal flipped, faceted, srcflags
         plan.append(st)
         if st["op"] in ("q", "qs"):
             return
+        if st["op"] == "back":
+            if objs.call(st) is not None:
+                (flipped, faceted), srcflags = srcflags, (flipped, faceted)
+            return
+        if st["op"] in RETAINABLE and not st.get("keep"):
+            # watch the object a sharing derivation is taken from (always: the original of a reverse() view
+            # while nothing else is watched)
+            st.setdefault("retain", rng.random() < (0.8 if st["op"] == "reverse" else 0.4))
         if st["op"] == "read":
-            st.setdefault("via", rng.choice(INPLACE_VIAS + ("fn_bw",) + (() if st["usefilter"] else ("fn", "fn_rev"))))
+            st.setdefault("via", rng.choice(INPLACE_VIAS + ("fn_bw",) * 3 + (() if st["usefilter"] else ("fn", "fn_rev") * 4)))
             st.setdefault("alias", rng.random() < 0.5)
+            if rng.random() < 0.15:
+                st.setdefault("align", make_align(rng, st["text"], st["via"]))
         elif st["op"] == "qread":
-            st.setdefault("via", rng.choice(["", "file"]))
+            st.setdefault("via", rng.choice(QREAD_VIAS))
+            if rng.random() < 0.1:
+                st.update(via=rng.choice(("", "file")), kw=False, align={"k": rng.choice(ALIGN_K), "delta": rng.choice((-1, 0, 0, 1))})
         elif st["op"] == "pickle":
-            st.setdefault("via", rng.choice(["", "file", "objpickle", "deepcopy"]))
+            st.setdefault("via", rng.choice(PICKLE_VIAS))
         if st["op"] not in FAIL_OPS:
             st.setdefault("kw", rng.random() < 0.25)
         if st.get("keep"):
-            do_call(cur, st)               # observed by execute(); the current object stays
+            do_call(objs.cur, st)          # observed by execute(); the current object stays
+            if st["op"] != "choose_copy":
+                memo.append((objs.cur, dict(st)))
         else:
-            cur, _ = do_call(cur, st)
+            before = (flipped, faceted)
+            r = objs.call(st)
+            if r[1] == "retain":
+                srcflags = before
 
     def vals_pool():
         if flipped:
@@ -1165,21 +1533,26 @@ def record_history(rng, nops, maxpk):
         """a fresh key of the kind the current collection uses"""
         if not flipped:
             if rng.random() < 0.3:                         # a name filtered out earlier may come back
-                cand = [p for p in pk_pool if p not in cur.db]
+                cand = [p for p in pk_pool if p not in objs.cur.db]
                 return rng.choice(cand) if cand else None
             for p in fresh:
-                if p not in cur.db:
+                if p not in objs.cur.db:
                     return p
             return None
         for _ in range(20):
             c = ("%s::%s" % (rng.choice(facets), rname(rng, 1, 5, ALPHA[:36])))
-            if c not in cur.db:
+            if c not in objs.cur.db:
                 return c
         return None
 
     if rng.random() < 0.75:
         lines = []
-        for _ in range(rng.randint(0, npk)):
+        # counts 0: collections in which ONE index is empty (packages that are known but not tagged -- lines
+        # without tags, or a tag_filter that rejects every tag) are ordinary collections
+        shape = rng.choice(("", "", "", "", "", "", "untagged", "untagged", "all-filtered", "one-tag"))
+        if many:
+            shape = ""
+        for li in range(many or rng.randint(1 if shape else 0, npk)):
             p = next(fresh, None)
             if p is None:
                 break
@@ -1189,13 +1562,24 @@ def record_history(rng, nops, maxpk):
                 if q is not None:
                     grp.append(q)
             tags = rng.sample(tg_pool, rng.randint(0, min(4, len(tg_pool))))
+            if shape == "untagged":
+                tags = []
+            elif shape == "one-tag":
+                tags = tg_pool[:1]
+            if many and rng.random() < 0.3:          # the sole carrier of a tag
+                tags = tags + ["%s::u%d" % (facets[0], li)]
             lines.append((grp, tags))
         drop = rng.sample(tg_pool, min(len(tg_pool), rng.randint(1, 2))) if rng.random() < 0.3 else []
+        if shape == "all-filtered":
+            drop = sorted({t for _, tg in lines for t in tg})
         text, glines = read_text(rng, lines)
         step({"op": "read", "text": text, "lines": glines, "drop": sorted(drop), "usefilter": bool(drop) or rng.random() < 0.3})
     ops = (["insert"] * 8 + ["reverse", "reverse_copy", "copy", "pickle", "choose", "choose_copy", "filter_p",
            "filter_p_copy", "filter_pt", "filter_pt_copy", "filter_t", "filter_t_copy", "facet", "q", "q", "q",
-           "read_fail", "read_fail", "qread_fail", "probe", "reread", "reread", "qs", "dumpread", "dumprevread"])
+           "read_fail", "read_fail", "qread_fail", "probe", "reread", "reread", "qs", "dumpread", "dumprevread",
+           "reverse", "reverse", "back", "back", "back", "again", "again", "again"])
+    if many:
+        ops += ["filter_p", "filter_p_copy", "filter_pt", "filter_pt_copy", "filter_t", "filter_t_copy", "choose"] * 2
     KEEPABLE = ("reverse", "reverse_copy", "copy", "choose", "choose_copy", "filter_p", "filter_p_copy", "filter_pt",
                 "filter_pt_copy", "filter_t", "filter_t_copy", "facet")
 
@@ -1217,8 +1601,8 @@ def record_history(rng, nops, maxpk):
         return glines, text, isrec
     for _ in range(nops):
         op = rng.choice(ops)
-        keys = sorted(cur.db) if isinstance(cur.db, dict) else []
-        rkeys = sorted(cur.rdb) if isinstance(cur.rdb, dict) else []
+        keys = sorted(objs.cur.db) if isinstance(objs.cur.db, dict) else []
+        rkeys = sorted(objs.cur.rdb) if isinstance(objs.cur.rdb, dict) else []
         al = rng.random() < 0.5                            # through the deprecated camelCase alias
         keep = op in KEEPABLE and rng.random() < 0.3       # observe the derivation, keep working on the object
         if op == "insert":
@@ -1256,6 +1640,21 @@ def record_history(rng, nops, maxpk):
                 step({"op": "read", "text": text, "lines": glines, "drop": sorted(drop), "usefilter": bool(drop) or rng.random() < 0.3,
                       "via": rng.choice(INPLACE_VIAS)})
             flipped = faceted = False
+        elif op == "again":
+            # a derivation taken from this object before (and kept aside) is taken AGAIN: whatever was done to
+            # the object since -- also through its views -- it is a derivation of what the object holds now
+            mine = [m for o, m in memo if o is objs.cur]
+            if mine and rng.random() < 0.85:
+                st0 = dict(rng.choice(mine[-2:]))
+                if st0["op"] == "facet" and (flipped or faceted):
+                    continue
+                step(st0)
+            elif not (flipped or faceted):
+                step({"op": "facet", "alias": al, "keep": True})
+        elif op == "back":
+            if objs.src is None:
+                continue
+            step({"op": "back", "why": SKIND_TEXT.get(objs.skind, "")})
         elif op == "qs":
             step({"op": "qs", "names": rng.sample(keys, min(len(keys), 3)) + rng.sample(rkeys, min(len(rkeys), 3)), "alias": al})
         elif op == "facet":
@@ -1285,7 +1684,7 @@ def record_history(rng, nops, maxpk):
                 step({"op": "read_fail", "text": text, "lines": glines, "k": sum(isrec[:m]), "m": m, "mode": "source", "fcall": 0, "want": "OSError"})
         elif op == "qread_fail":
             glines, text, _ = some_lines()
-            step({"op": "qread_fail", "text": text, "lines": glines, "k": rng.randint(0, 1), "cutfrac": rng.random()})
+            step({"op": "qread_fail", "text": text, "lines": glines, "k": rng.randint(0, 1), "cutfrac": rng.random(), "via": rng.choice(QREAD_VIAS)})
         elif op == "probe":
             what = rng.choice(["insert_none", "insert_int", "filter_raises", "filter_tags_raises", "choose_none", "read_none"])
             step({"op": "probe", "what": what, "a": rname(rng, 2, 5, alpha)})
@@ -1293,12 +1692,12 @@ def record_history(rng, nops, maxpk):
             probe = rng.sample(keys, min(len(keys), 4)) + rng.sample(rkeys, min(len(rkeys), 4)) + [rname(rng, 1, 4, alpha)]
             step({"op": "q", "names": probe, "alias": al})
         elif op in ("filter_t", "filter_t_copy"):
-            sel = [t for t in rkeys if rng.random() < 0.7] + [rname(rng, 2, 4, alpha)]
+            sel = (most(rkeys) if few else [t for t in rkeys if rng.random() < 0.7]) + [rname(rng, 2, 4, alpha)]
             step(dict({"op": op, "s": sorted(set(sel)), "alias": al}, **({"keep": True} if keep else {})))
             if not keep:
                 pass
         else:
-            sel = [p for p in keys if rng.random() < 0.75]
+            sel = most(keys)
             if op != "choose_copy":
                 sel.append(rname(rng, 2, 4, alpha))        # absent name
             elif rng.random() < 0.03:
@@ -1310,14 +1709,36 @@ def record_history(rng, nops, maxpk):
                 sel = sorted(set(sel))
             step(dict({"op": op, "s": sel, "alias": al}, **({"keep": True} if keep else {})))
         if rng.random() < 0.25:
-            keys = sorted(cur.db) if isinstance(cur.db, dict) else []
-            rkeys = sorted(cur.rdb) if isinstance(cur.rdb, dict) else []
+            keys = sorted(objs.cur.db) if isinstance(objs.cur.db, dict) else []
+            rkeys = sorted(objs.cur.rdb) if isinstance(objs.cur.rdb, dict) else []
             step({"op": "q", "names": rng.sample(keys, min(len(keys), 3)) + rng.sample(rkeys, min(len(rkeys), 3)),
                   "alias": rng.random() < 0.5})
     return plan, clean[0]
 
 
 # ------------------------------------------------------------------ the check
+
+def sharing_diagnostics(ctx):
+    """what the documented set sharing does to a SOURCE today (unspecified zone, never a verdict): samples only"""
+    from debian import debtags
+    for what, derive in (("choose_packages_copy(['p']) [docstring: 'with a copy of the tagsets']", lambda d: d.choose_packages_copy(["p"]).reverse()),
+                         ("choose_packages(['p']) [sharing]", lambda d: d.choose_packages(["p"]).reverse()),
+                         ("filter_tags(any) [sharing]", lambda d: d.filter_tags(lambda t: True).reverse().reverse())):
+        try:
+            d = debtags.DB()
+            d.read(iter(["p: fg::h\n", "ab: fg::h, j::h\n"]))
+            v = derive(d)
+            if "filter_tags" in what:
+                v.insert("x", {"fg::h"})
+            else:
+                v.insert("j::i", {"p"})
+            fwd, bwd = pairs(d.db), {(p_, t) for t, p_ in pairs(d.rdb)}
+            ctx.sample("diagnostic (unspecified, reported to the lead): an insert through %s%s: the SOURCE is %s"
+                       % (what, "" if "filter_tags" in what else ".reverse()",
+                          "still mutually inverse" if fwd == bwd else "no longer mutually inverse: %r" % (sorted(fwd ^ bwd),)))
+        except Exception as e:
+            ctx.sample("diagnostic: %s raised %s" % (what, type(e).__name__))
+
 
 def load_lts(ctx, cfg):
     """model-check the closed configuration and read the complete reference LTS it prints"""
@@ -1359,20 +1780,21 @@ def skey_state(s):
 
 
 def strip_edge(e):
-    return {k: e[k] for k in ("from", "op", "a", "s", "lines", "k", "allowed", "to") if k in e}
+    return {k: e[k] for k in ("from", "op", "a", "s", "lines", "k", "allowed", "to", "variant") if k in e}
 
 
 def run(ctx):
     quick = ctx.tier == "quick"
     quiet_deprecations()
     WORKDIR[0] = ctx.work
+    STATS["kinds"], STATS["aligned"] = {}, []
     rng = ctx.rng
     known_open = ctx.known_open(KNOWN)
     ctx.assumptions += [
         "model constants: packages p/ab/cdc (lengths 1,2,3) x tags fg::h fg::i j::h (thorough: also 4 packages, no LTS); closed state space: histories of any length over these names",
         "domain: insert gets a fresh package name; read gets each package on one line; facet_collection on facet::name tags; choose_packages_copy gets present packages (the rest is executed, any outcome accepted)",
         "a read()/qread() that raises part-way and other raising calls are part of a history: the exception must propagate and the object must stay consistent (unchanged or a line-prefix / the new collection; which one is unspecified)",
-        "one current object per history plus the retained source of the last copy()/reverse_copy()/pickle round trip (must stay unchanged); sources of derivations documented as sharing are not observed",
+        "one current object per history plus one watched object: the source of the last copy()/reverse_copy()/pickle round trip (must stay unchanged), the original of a reverse() view (must follow what is done through the view) or the source of a set-sharing restriction (unchanged until an insert may reach a shared set, then unspecified)",
         "concretization of names is sampled (seeded); trusted: TLC, the projection of DB.db/DB.rdb, the concretizer",
         "known finding %s is %s: divergences TLC explains with the deviation-on operators are %s"
         % (KNOWN, "open" if known_open else "NOT open", "counted as KNOWN-FINDING" if known_open else "violations"),
@@ -1380,7 +1802,7 @@ def run(ctx):
     # 1. design level.  The closed configurations and the two negative controls do not depend on
     #    each other or on /repo: they run beside the LTS emission and the replay (joined in 2c).
     from concurrent.futures import ThreadPoolExecutor
-    pool = ThreadPoolExecutor(6)
+    pool = ThreadPoolExecutor(7)
 
     def bg(cfg, workers):
         return pool.submit(ctx.tlc, "Debtags", cfg, count=False, workers=workers)
@@ -1392,6 +1814,7 @@ def run(ctx):
     f_nq = bg("MC_Debtags_qread.cfg", 1)        # negative control: qread() binds db first -> Inverse violated
     f_rv = bg("MC_Debtags_rview.cfg", 1)        # negative control: remembered reverse view survives read() -> Refines violated
     f_ab = bg("MC_Debtags_alias.cfg", 1)        # negative control: alias bound to the first object -> AliasQueriesAgree violated
+    f_vw = bg("MC_Debtags_view.cfg", 1)         # negative control: reverse() replaces an EMPTY index by a private dict -> Source* violated
     if quick:
         f_closed = None            # the 3 x 3 closed configuration belongs to the thorough tier (budget)
         f_big = None
@@ -1407,7 +1830,8 @@ def run(ctx):
         for name, f, want in (("closed", f_closed, None), ("big", f_big, None), ("src", f_src, None),
                               ("shallow", f_sh, ("SourceInverse", "SourceRefines")), ("dev", f_dev, ("Inverse",)),
                               ("nonatomic", f_na, ("Inverse",)), ("qread", f_nq, ("Inverse",)),
-                              ("rview", f_rv, ("Refines",)), ("alias", f_ab, ("AliasQueriesAgree",))):
+                              ("rview", f_rv, ("Refines",)), ("alias", f_ab, ("AliasQueriesAgree",)),
+                              ("view", f_vw, ("SourceRefines", "SourceInverse"))):
             if f is None:
                 continue
             r = f.result()
@@ -1453,8 +1877,13 @@ def run(ctx):
             for st in plan:
                 if st["op"] == "read" and st.get("via") not in INPLACE_VIAS:
                     st["via"] = "iter"
+        if label == "view":                    # the view itself, not its copying twin
+            for st in plan:
+                if st["op"] == "reverse_copy":
+                    st["op"] = "reverse"
+        plan_views(plan, rng, force_last=(label == "view"))
         called[plan[-1]["op"]] = called.get(plan[-1]["op"], 0) + 1
-        exp = expectations(path, tables)
+        exp = expectations(path, tables, rev_of)
         n_replayed += 1
         d = replay_path(plan, exp, conc, rng, junk, deep)
         if d is None:
@@ -1477,14 +1906,16 @@ def run(ctx):
     for k, outs in g.out.items():
         for x in outs:
             by_op[k].setdefault(x["op"], []).append(x)
+    rev_of = {k: by_op[k]["reverse"][0] for k in g.out}       # the reference's reverse transition out of every state
     DERIVE = ("reverse", "copy", "restrict_p", "filter_t", "facet")
+    AGAIN = ("facet", "restrict_p", None, "filter_t", "copy", None, "dumpread", "restrict_p")    # derivations repeated around a view edit
     # 2a. every transition of the LTS (prefix = shortest path from DB())
     nconc = 2
     concs = ([Conc(canonical=True)] + [Conc(rng) for _ in range(17)]
              + [Conc(flavour="nfc"), Conc(flavour="marks"), Conc(flavour="case")]
              + [Conc(rng, flavour="size") for _ in range(3)])
     nc = len(concs) - 1
-    n_reread = 0
+    n_reread = n_view = n_again = 0
     for idx, e in enumerate(g.edges):
         if nviol[0] >= 5:
             break
@@ -1514,8 +1945,34 @@ def run(ctx):
                 pre = paths[e["_f"]]
                 one(pre + [e, r, again[idx % len(again)]], concs[1 + ((idx + 7) % nc)], False, "reread", keeps=(len(pre),))
                 n_reread += 1
+        # views: the transition is taken through a reverse() VIEW of a collection (reached on the shortest
+        # path), then the history goes back to the ORIGINAL, which must show TLC's state (the reverse of the
+        # view's): all in-place transitions, thinned in the thorough tier
+        # (selection only: transitions that will meet the open known finding -- a multi-character name inserted
+        # under a key new to the other index -- are thinned, each of them costs a TLC-judged trace)
+        devprone = e["op"] == "insert" and len(e["a"]) > 1 and any(t not in e["from"]["T"] for t in e["s"])
+        if e["op"] in ("insert", "read_fails", "qread_fails") and (idx % 8 == 0 if e["op"] != "insert" else (not devprone or idx % 4 == 0)) \
+                and ((idx + ctx.seed) % 2 == 0 if quick else idx % 3 == 0):
+            o = rev_of[e["_f"]]["_t"]                   # the original: its reverse() view shows e's start state
+            if rev_of[o]["_t"] == e["_f"]:
+                pre, keeps = paths[o], ()
+                path = pre + [rev_of[o], e, rev_of[e["_t"]]]
+                # ... with a derivation taken from the original BEFORE the view is edited (kept aside) and the
+                # same derivation taken AGAIN after going back: it must be a derivation of the edited collection
+                dop = AGAIN[(idx // 2) % len(AGAIN)]
+                d1, d2 = by_op[o].get(dop), by_op[rev_of[e["_t"]]["_t"]].get(dop)
+                if d1 and d2:
+                    first = d1[idx % len(d1)]
+                    same = [x for x in d2 if x["s"] == first["s"]] or d2
+                    path = pre + [first, rev_of[o], e, rev_of[e["_t"]], same[idx % len(same)]]
+                    keeps = (len(pre),)
+                    n_again += 1
+                one(path, concs[1 + ((idx + 3) % nc)] if idx % 2 else concs[0], False, "view", keeps=keeps)
+                n_view += 1
         ctx.case_seen(("edge", e["_f"], e["op"], json.dumps(e["args"])), e["_f"] != e["_t"])
     ctx.extra["reread_behaviours"] = n_reread
+    ctx.extra["view_behaviours"] = n_view
+    ctx.extra["view_behaviours_with_repeated_derivation"] = n_again
     mid = g.edges[len(g.edges) // 3]
     ctx.sample("lts edge: " + json.dumps(strip_edge(mid), separators=(",", ":")))
     ctx.sample("its concretization: " + " ; ".join(
@@ -1557,6 +2014,34 @@ def run(ctx):
             ctx.violation({"kind": "big", "path": [strip_edge(e) for e in path], "tables": {skey_state(x): tables[skey_state(x)] for e in path for x in [e["from"], e["to"]] + e.get("allowed", []) if skey_state(x) in tables},
                            "bigconc": bc.to_json(), "seed": brng_seed, "length": len(path) - 1}, "size-stressed behaviour %r: %s" % (shape, msg))
     ctx.extra["size_stress_cases"] = bigs
+    # 2b''. thresholds inside derivation histories: restrictions that take FEW names out of MANY (64, 100, 128 ...)
+    #      every restricting method x totals x dropped shares, rotating with the seed
+    nthr = 96 if quick else 480
+    thr = []
+    import random as _random
+    for b in range(nthr):
+        if nviol[0] >= 5:
+            break
+        tseed = rng.randrange(1 << 30)
+        c = b // len(RESTRICT_VARIANTS) + ctx.seed * 5
+        tc = threshold_case(g, by_op, _random.Random(tseed), RESTRICT_VARIANTS[b % len(RESTRICT_VARIANTS)],
+                            THRESH_N[(c * 7) % len(THRESH_N)], c)
+        if tc is None:
+            continue
+        path, counts, what = tc
+        bc = BigConc(concs[(b % 18)], counts, 33 if b % 7 == 3 else 0)
+        msg = replay_big(path, tables, bc, _random.Random(tseed + 1))
+        n_replayed += 1
+        thr.append(what)
+        ctx.case_seen(("threshold", b), True)
+        if msg:
+            nviol[0] += 1
+            ctx.violation({"kind": "big", "path": [strip_edge(e) for e in path], "tables": {skey_state(x): tables[skey_state(x)] for e in path for x in [e["from"], e["to"]] + e.get("allowed", []) if skey_state(x) in tables},
+                           "bigconc": bc.to_json(), "seed": tseed, "length": len(path) - 1},
+                          "restriction taking %d of %d names out (%s): %s" % (what["dropped"], what["total"], what["restriction"], msg))
+    ctx.extra["threshold_cases"] = {"n": len(thr), "sole_carrier": sum(1 for w in thr if w["sole_carrier"]),
+                                    "totals": sorted({w["total"] for w in thr}), "sample": thr[:3]}
+    sharing_diagnostics(ctx)
     ctx.extra["behaviours_replayed"] = n_replayed
     ctx.extra["replayed_last_call_per_method"] = called
     ctx.extra["behaviours_diverged"] = len(diverged)
@@ -1574,7 +2059,8 @@ def run(ctx):
                                           "NonAtomicRead=TRUE -> TLC: invariant %s violated" % design["nonatomic"].violated,
                                           "NonAtomicQread=TRUE -> TLC: invariant %s violated" % design["qread"].violated,
                                           "ReverseViewCached=TRUE -> TLC: invariant %s violated" % design["rview"].violated,
-                                          "AliasBoundToFirstObject=TRUE -> TLC: invariant %s violated" % design["alias"].violated]
+                                          "AliasBoundToFirstObject=TRUE -> TLC: invariant %s violated" % design["alias"].violated,
+                                          "ViewReplacesEmptyIndex=TRUE -> TLC: invariant %s violated" % design["view"].violated]
     hits = 0
     if diverged:
         traces = [t for _, _, t in diverged]
@@ -1602,7 +2088,9 @@ def run(ctx):
     # 3. code -> spec: recorded histories validated by TLC
     ntr, nops, maxpk = (180, 14, 12) if quick else (1200, 30, 30)
     batch = 400
-    recorded = [record_history(rng, nops, maxpk if i % 3 else 5) for i in range(ntr)]
+    manys = (64, 65, 72, 100, 101, 128)
+    recorded = [record_history(rng, nops, maxpk if i % 3 else 5, many=(manys[(i // 90 + ctx.seed) % len(manys)] if i % 90 == 45 else 0))
+                for i in range(ntr)]
     plans = [p for p, _ in recorded]
     traces, bad = [], []
     for p, clean in recorded:
@@ -1640,6 +2128,11 @@ def run(ctx):
         for s in p:
             opc[s["op"]] = opc.get(s["op"], 0) + 1
     ctx.extra["recorded_calls_per_method"] = opc
+    ctx.extra["file_object_kinds"] = dict(sorted(STATS["kinds"].items()))
+    al = STATS["aligned"]
+    ctx.extra["aligned_cases"] = {"n": len(al), "offsets_2^k": sorted({a["k"] for a in al}), "deltas": sorted({a["delta"] for a in al}),
+                                  "anchors": sorted({a["where"] for a in al}), "input_forms": sorted({a["via"] for a in al}),
+                                  "sample": al[:3]}
     ctx.sample("recorded history (first calls): " + " ; ".join(describe(s) for s in plans[0][:4])[:400])
     # the design-level runs finish in any order: list them deterministically in the evidence
     order = {id(r): i for i, r in enumerate(ctx.tlc_runs)}
